@@ -1,14 +1,16 @@
 #!/bin/bash
 # confirms each seeded change independently: demo passes on the clean tree, fails with the change, and the repository's own
 # test suite still passes with the change.  Uses one scratch worktree of /repo's pinned base commit with its own build directory.
-cd /verif; BASE=$(git -C /repo rev-list --max-parents=0 HEAD | tail -1); WT=/tmp/confirm_wt
-if [ ! -d $WT ]; then git -C /repo worktree add -q --detach $WT $BASE; (cd $WT && cmake -G Ninja -B _build -DAMGCL_BUILD_TESTS=ON -DCMAKE_BUILD_TYPE=RelWithDebInfo -DCMAKE_CXX_FLAGS=-Wno-error >/dev/null && nice cmake --build _build -j6 > /tmp/confirm_build0.log 2>&1); fi
+cd /verif; BASE=$(git -C /repo rev-parse HEAD); WT=/tmp/confirm_wt     # the current /repo HEAD (pinned commit + the 'fix:' commits): the seeded patches were written against it
+if [ ! -d $WT ]; then git -C /repo worktree add -q --detach $WT $BASE; else (cd $WT && git checkout -q -- . && git checkout -q --detach $BASE); fi
+(cd $WT && cmake -G Ninja -B _build -DAMGCL_BUILD_TESTS=ON -DCMAKE_BUILD_TYPE=RelWithDebInfo -DCMAKE_CXX_FLAGS=-Wno-error >/dev/null && nice cmake --build _build -j6 > /tmp/confirm_build0.log 2>&1)
 for name in "$@"; do d=/verif/seeded/$name; [ -f $d/patch.diff ] || continue
   flags=""; grep -q "omp.h\|omp_set_num_threads" $d/demo.cpp && flags="-fopenmp"
+  CXX=g++; RUN=""; if grep -q "mpi.h\|amgcl/mpi/" $d/demo.cpp; then CXX=mpicxx; RUN="mpirun --oversubscribe --allow-run-as-root -np 3"; fi
   (cd $WT && git checkout -q -- . )
-  g++ -std=c++17 -O1 -w $flags -I$WT $d/demo.cpp -o /tmp/confirm_demo_clean 2>/tmp/confirm_cc.log; cc0=$?; OMP_NUM_THREADS=4 timeout 600 /tmp/confirm_demo_clean >/tmp/confirm_clean.out 2>&1; rc_clean=$?
-  if ! git -C $WT apply $d/patch.diff; then echo "$name: patch does not apply to the base commit" > $d/confirm.txt; continue; fi
-  g++ -std=c++17 -O1 -w $flags -I$WT $d/demo.cpp -o /tmp/confirm_demo_mut 2>>/tmp/confirm_cc.log; cc1=$?; OMP_NUM_THREADS=4 timeout 600 /tmp/confirm_demo_mut >/tmp/confirm_mut.out 2>&1; rc_mut=$?
+  $CXX -std=c++17 -O1 -w $flags -I$WT $d/demo.cpp -o /tmp/confirm_demo_clean 2>/tmp/confirm_cc.log; cc0=$?; OMP_NUM_THREADS=4 timeout 900 $RUN /tmp/confirm_demo_clean >/tmp/confirm_clean.out 2>&1; rc_clean=$?
+  if ! git -C $WT apply $PWD/$d/patch.diff 2>/dev/null && ! git -C $WT apply $d/patch.diff; then echo "$name: patch does not apply to /repo HEAD" > $d/confirm.txt; continue; fi
+  $CXX -std=c++17 -O1 -w $flags -I$WT $d/demo.cpp -o /tmp/confirm_demo_mut 2>>/tmp/confirm_cc.log; cc1=$?; OMP_NUM_THREADS=4 timeout 900 $RUN /tmp/confirm_demo_mut >/tmp/confirm_mut.out 2>&1; rc_mut=$?
   (cd $WT && nice cmake --build _build -j6 > /tmp/confirm_build.log 2>&1); rc_build=$?
   (cd $WT && OMP_NUM_THREADS=2 ctest --test-dir _build -j4 --timeout 1800 > /tmp/confirm_ctest.log 2>&1); rc_test=$?
   { echo "demo on clean base tree: compile rc=$cc0, exit $rc_clean (expected 0)"; echo "demo with patch.diff applied: compile rc=$cc1, exit $rc_mut (expected non-zero)"; echo "repository test suite with patch.diff applied: build rc=$rc_build, ctest rc=$rc_test: $(grep 'tests passed' /tmp/confirm_ctest.log)"; echo "demo output with the change (tail):"; tail -3 /tmp/confirm_mut.out; } > $d/confirm.txt
